@@ -30,12 +30,13 @@ RULE = (
     "  Some cores are calc -> transfer -> 0-2 user-defined markers -> materialization or end in a chain with a "
     "doomed branch; payload objects with value equality and lazy (batched, re-iterable) row iterables are attached; the rows cached on each core are "
     "snapshotted when first seen and re-compared (same rows, same order) after every step. "
+    "  'faulted' steps make an evaluation FAIL half-way (the core's leaf stops delivering rows at a random position, or the k-th Processor hook call raises): a payload stored by a failed evaluation must hold the complete rows, iterations started by the failed attempt are not counted against at-most-once, and all later steps are judged as usual. "
 )
 ASSUMPTIONS = [
     "iteration-core leaves are observed through CountingRows payloads; SQL cores through the Processor hook log",
     "attach_payload(None) on a relation without payload is a no-op (the payload stays None), as the code documents",
 ]
-MIN_OBS = {"steps_executed": 4000, "attach_contract_evaluations": 300, "attach_rejections_checked": 1000, "core_reuses": 1000, "shadow_sweeps": 4000, "cores_evaluated": 200}
+MIN_OBS = {"steps_executed": 4000, "faults_injected": 500, "attach_contract_evaluations": 300, "attach_rejections_checked": 1000, "core_reuses": 1000, "shadow_sweeps": 4000, "cores_evaluated": 200}
 CASE_TIMEOUT = 180
 STEPS = ["build", "build", "execute", "execute", "process", "process", "attach_valid", "attach_again", "attach_none", "attach_nonmarker", "faulted", "faulted"]
 
